@@ -233,6 +233,18 @@ func c05Idioms() []c05Idiom {
 				{"cym := {l: [1]}", "cyi := immutable(cym)", "cym.l[0] = cyi", "r = len(freeze(cyi))"},
 			}[r.Intn(8)]
 		}},
+		{name: "closureSelfCapture", lines: func(r *plan.Rng) []string {
+			// a local recursive function holds itself in one of its captured cells
+			mk := []string{"mkw := func() {", "	walk := func(k) { return k == 0 ? 0 : 1 + walk(k - 1) }", "	return walk", "}", "wk := mkw()"}
+			use := [][]string{
+				{"w2 := copy(wk)", "r = w2(5) + wk(3)"},
+				{"r = copy([wk, {f: wk}])[1].f(4)"},
+				{"gcy = wk", "r = wk(2)"},
+				{"r = wk == wk", "r = string(wk)", "r = format(\"%v\", [wk])"},
+				{"ev := func() { odd := 0; even := func(k) { return k == 0 ? true : odd(k - 1) }; odd = func(k) { return k == 0 ? false : even(k - 1) }; return even }()", "r = copy(ev)(6)"},
+			}[r.Intn(5)]
+			return append(append([]string{}, mk...), use...)
+		}},
 		{name: "closureEscape", lines: L(
 			"fs := []",
 			"for i := 0; i < 5; i++ {",
